@@ -76,9 +76,30 @@ Print Assumptions notified_session_says_goodbye.
 Example ex_unbiased_select_can_end_abruptly : session_poll false true true false = Abrupt.
 Proof. reflexivity. Qed.
 
+(* the binary: whatever happened before, the process exits only when every participant that registered before
+   completion began has finished (sessions included), however early the listener returned *)
+Theorem process_exits_only_after_the_last_participant :
+  forall history listener_returned,
+    process_may_exit MAIN_AWAITS_COMPLETION (sstep (srun history) Complete) listener_returned = true ->
+    forall i p, nth_error (parts (srun history)) i = Some p -> p_awaited p = true -> p_finished p = true.
+Proof.
+  intros history lr H i p N A. change MAIN_AWAITS_COMPLETION with true in H. cbn [process_may_exit] in H.
+  pose proof (proj1 (completion_exactly_when_all_finished (history ++ [Complete]))) as C.
+  unfold srun in C. rewrite fold_left_app in C. cbn [fold_left] in C. fold (srun history) in C.
+  destruct (C H) as [_ F]. apply (F i p); [|exact A].
+  cbn [sstep parts]. exact N.
+Qed.
+Print Assumptions process_exits_only_after_the_last_participant.
+
+(* as found: the listener returns as soon as it has observed the submission *)
+Example ex_exit_at_listener_return :
+  process_may_exit false (srun [Register; Register; Wait 0; Wait 1; Submit; Finish 0; Complete]) true = true
+  /\ completion_done (srun [Register; Register; Wait 0; Wait 1; Submit; Finish 0; Complete]) = false.
+Proof. split; reflexivity. Qed.
+
 Theorem code_facts :
   SHUTDOWN_CHANNELS_AS_MODELLED = true /\ SHUTDOWN_WAIT_AS_MODELLED = true /\ SHUTDOWN_PARTICIPANTS_REGISTER_BOTH = true
-  /\ SESSIONS_SAY_GOODBYE_WHEN_FEED_STOPS = true.
+  /\ SESSIONS_SAY_GOODBYE_WHEN_FEED_STOPS = true /\ MAIN_AWAITS_COMPLETION = true.
 Proof. repeat split; exact eq_refl. Qed.
 Print Assumptions code_facts.
 
